@@ -1,6 +1,6 @@
 \* the check (harness/checks/c20.py) generates its cfgs itself; this one is for manual runs
-CONSTANTS N = 4  EARLY_PUBLISH = FALSE  SPLIT_ASSIGN = FALSE  TORN_READ = FALSE
+CONSTANTS N = 4  EARLY_PUBLISH = FALSE  SPLIT_ASSIGN = FALSE  TORN_READ = FALSE  LOCKED = "none"
 SPECIFICATION Spec
 INVARIANTS TypeOK PubEmptyOrComplete CoordsOldOrNew AloneOK LocIsPrefix ReaderOK FinalOK
-PROPERTIES StepsAreEffects BuilderFinishes
+PROPERTIES StepsAreEffects BuilderFinishes NeverBlockedForever
 CHECK_DEADLOCK TRUE
